@@ -194,6 +194,14 @@ Proof.
   rewrite uvarint_put by exact He. rewrite drop_app_exact, b2n_n2b by exact Hm. reflexivity.
 Qed.
 
+(** EncodedSize is the length of the encoding *)
+Lemma value_size_law v :
+  blen (v_value v) + 11 < two32 -> encoded_size v = blen (enc_value v).
+Proof.
+  intro H. unfold encoded_size, enc_value. rewrite size_varint_law, blen_cons, blen_app.
+  pose proof (blen_put (v_exp v)). unfold u32. rewrite N.mod_small; lia.
+Qed.
+
 (** * allocation *)
 Lemma decode_entry_prealloc_le bs : decode_entry_prealloc bs <= 2 * max_prealloc.
 Proof.
